@@ -51,8 +51,8 @@ Proof. destruct dd, b; cbn; auto. Qed.
 Lemma dump_stage_sound n : forall b, sound b = true -> sound (dump_stage n b) = true.
 Proof. induction n as [|k IH]; intros b H; cbn [dump_stage]; [assumption|]. apply IH. destruct b; cbn in *; auto. Qed.
 
-Lemma handle_response_body_sound p ct o b :
-  sound b = true -> gz_shape b -> sound (handle_response_body p ct o b) = true.
+Lemma handle_response_body_sound p g ct o b :
+  sound b = true -> gz_shape b -> sound (handle_response_body p g ct o b) = true.
 Proof.
   intros Hs Hg. unfold handle_response_body.
   apply dump_stage_sound, decode_stage_sound.
@@ -61,7 +61,7 @@ Qed.
 
 (* no reader in the stack is nil - for every stack, request/transport configuration, option
    combination, header values and verdicts of the media-type / charset libraries *)
-Theorem stages_never_nil st c p ce ct o : sound (pipeline st c p ce ct o) = true.
+Theorem stages_never_nil st c p g ce ct o : sound (pipeline st c p g ce ct o) = true.
 Proof.
   unfold pipeline. apply handle_response_body_sound;
     [apply transport_body_sound|apply transport_body_shape].
@@ -107,8 +107,8 @@ Proof. induction n as [|k IH]; intros b; cbn [dump_stage]; [reflexivity|]. rewri
 
 (* callback, decoder and dump wrappers are only ever added: with them taken out again, the
    stack is exactly what the transport built (same layers, same order, same bottom) *)
-Theorem stages_only_add st c p ce ct o :
-  core (pipeline st c p ce ct o) = core (transport_body st c ce).
+Theorem stages_only_add st c p g ce ct o :
+  core (pipeline st c p g ce ct o) = core (transport_body st c ce).
 Proof.
   unfold pipeline, handle_response_body. rewrite dump_stage_core, decode_stage_core.
   destruct (p_callback p); [apply wrap_cb_core, transport_body_shape|reflexivity].
@@ -163,8 +163,8 @@ Proof.
   - cbn. intros [H|[]]; auto.
 Qed.
 
-Theorem dump_outermost st c p ce ct o :
-  exists rest, fst (flatten (pipeline st c p ce ct o)) = repeat TDump (p_dumpers p) ++ rest /\
+Theorem dump_outermost st c p g ce ct o :
+  exists rest, fst (flatten (pipeline st c p g ce ct o)) = repeat TDump (p_dumpers p) ++ rest /\
                ~ In TDump rest.
 Proof.
   unfold pipeline, handle_response_body. rewrite dump_stage_flatten. cbn [fst].
@@ -176,27 +176,27 @@ Proof.
   assert (H1 : ~ In TDump (fst (flatten (if p_callback p then wrap_cb b0 else b0)))).
   { destruct (p_callback p); [|assumption]. intros Hin.
     apply wrap_cb_tags in Hin as [Hin|Hin]; [discriminate|auto|apply transport_body_shape]. }
-  destruct (decode_decision _ _ _); cbn [decode_stage]; rewrite ?flatten_wrap; cbn [fst In]; try assumption;
+  destruct (decode_decision _ _ _ _); cbn [decode_stage]; rewrite ?flatten_wrap; cbn [fst In]; try assumption;
     intros [H|H]; try discriminate; auto.
 Qed.
 
 (* ---------- the decision ---------- *)
 
-Theorem decode_off_when_disabled d ct o : d_disable d = true -> decode_decision d ct o = DNone.
+Theorem decode_off_when_disabled d g ct o : d_disable d = true -> decode_decision d g ct o = DNone.
 Proof. intros H. unfold decode_decision. now rewrite H. Qed.
 
-Theorem decode_off_for_utf8 d ct o cs :
+Theorem decode_off_for_utf8 d g ct o cs :
   o_parse_err o = false -> o_charset o = Some cs ->
   contains_sub (bs "utf-8") (to_lower cs) || contains_sub (bs "utf8") (to_lower cs) = true ->
-  decode_decision d ct o = DNone.
+  decode_decision d g ct o = DNone.
 Proof.
   intros H1 H2 H3. unfold decode_decision. rewrite H1, H2. cbv zeta. rewrite H3.
   repeat (match goal with |- context [if ?x then _ else _] => destruct x end); reflexivity.
 Qed.
 
-Theorem decode_off_for_unknown_charset d ct o cs :
+Theorem decode_off_for_unknown_charset d g ct o cs :
   o_parse_err o = false -> o_charset o = Some cs -> o_known o = false ->
-  decode_decision d ct o = DNone.
+  decode_decision d g ct o = DNone.
 Proof.
   intros H1 H2 H3. unfold decode_decision. rewrite H1, H2, H3. cbv zeta.
   repeat (match goal with |- context [if ?x then _ else _] => destruct x end); reflexivity.
@@ -206,15 +206,19 @@ Qed.
 
 Definition cfg_auto : tcfg := {| t_head := false; t_wire_cl := 17; t_ended := false; t_asked := false; t_auto := true |}.
 Definition cfg_plain : pcfg :=
-  {| p_callback := false; p_decode := {| d_disable := false; d_custom := None; d_resp_ae := [] |}; p_dumpers := 0 |}.
+  {| p_callback := false; p_decode := {| d_disable := false; d_custom := None |}; p_dumpers := 0 |}.
 Definition o_none : ct_oracle := {| o_parse_err := false; o_charset := None; o_known := false |}.
 
 (* Content-Encoding: identity under AutoDecompression: the pinned code stored nil as the body
    on all three stacks, and for a text type the charset sniffer wrapped the nil *)
 Theorem pinned_refuted :
-  sound (pipeline_pinned H1 cfg_auto cfg_plain (bs "identity") (bs "text/plain") o_none) = false /\
-  sound (pipeline_pinned H2 cfg_auto cfg_plain (bs "identity") (bs "text/plain") o_none) = false /\
-  sound (pipeline_pinned H3 cfg_auto cfg_plain (bs "identity") (bs "text/plain") o_none) = false /\
-  flatten (pipeline_pinned H1 cfg_auto cfg_plain (bs "identity") (bs "text/plain") o_none) = ([TAutoDecode], true) /\
-  flatten (pipeline H1 cfg_auto cfg_plain (bs "identity") (bs "text/plain") o_none) = ([TAutoDecode; TEofSignal], false).
+  sound (pipeline_pinned H1 cfg_auto cfg_plain [] (bs "identity") (bs "text/plain") o_none) = false /\
+  sound (pipeline_pinned H2 cfg_auto cfg_plain [] (bs "identity") (bs "text/plain") o_none) = false /\
+  sound (pipeline_pinned H3 cfg_auto cfg_plain [] (bs "identity") (bs "text/plain") o_none) = false /\
+  flatten (pipeline_pinned H1 cfg_auto cfg_plain [] (bs "identity") (bs "text/plain") o_none) = ([TAutoDecode], true) /\
+  flatten (pipeline H1 cfg_auto cfg_plain [] (bs "identity") (bs "text/plain") o_none) = ([TAutoDecode; TEofSignal], false).
 Proof. vm_compute. repeat split. Qed.
+
+(* a non-empty guard header value switches the decoder stage off *)
+Theorem decode_off_when_guarded d g ct o : g <> [] -> decode_decision d g ct o = DNone.
+Proof. intros H. unfold decode_decision. destruct g; [contradiction|]. cbn. now rewrite Bool.orb_true_r. Qed.
